@@ -1620,8 +1620,9 @@ def search(ck: Ck) -> None:
                 cls = roundtrip_fails(small, {}, 'export')
                 report(fail_key('export-roundtrip', small, cls), f'parse("".join(t.export())) != t ({cls})', small, {},
                        {'writer': 'export'})
-            if identity_walk(root) != before:
-                report('export-mutates-tree', 'the tree differs after export()', doc, {})
+            write_text(root, {}, 'export')       # (round 5: on THIS tree; the round trip above builds its own)
+            if identity_walk(root) != before or snapshot(root)[2] != doc:
+                report('export-mutates-tree', 'the tree differs after export()', doc, {}, {'writer': 'export'})
             hist_jobs.append((i, doc, opts))
         if special and nodes >= 1:
             ck.seen(('search', repr(doc)))
